@@ -216,6 +216,33 @@ def check_free_symbols(ctx):
                required="the array is a function of the phase (the substituted data) only", mod=GATES, node=arr, sig="array-reads")
 
 
+def check_early_exits(ctx):
+    """R14.4: subs / lambdify hand the box back unchanged only when none of the substituted symbols occurs in it"""
+    m = ctx.model
+    n = 0
+    for c in sorted(m.classes.values(), key=lambda c: c.q):
+        if c.mod not in SCOPE:
+            continue
+        for meth, argname, same in (("subs", "args", "self"), ("lambdify", "symbols", "lambda *xs: self")):
+            fn = c.methods.get(meth, (None,))[0]
+            if not isinstance(fn, ast.FunctionDef) or fn.args.vararg is None:
+                continue
+            self_ = fn.args.args[0].arg
+            N = {fn.args.vararg.arg: argname, self_: "self"}
+            for st in fn.body:
+                if not (isinstance(st, ast.If) and st.body and isinstance(st.body[-1], ast.Return) and st.body[-1].value is not None):
+                    continue
+                rv = shape.rename(st.body[-1].value, N)
+                if shape.key(rv) != shape.key(shape.parse(same)):
+                    continue
+                n += 1
+                specs = ["not self.free_symbols"] + (["not any((var in self.free_symbols for var in ({var for var, _ in args[0]} if len(args) == 1 else {args[0]})))"] if meth == "subs" else
+                                                     ["not any((x in self.free_symbols for x in symbols))"])
+                shape.match(ctx, "R14.4", "%s.%s:unchanged" % (c.q, meth), st.test, specs, N, mod=c.mod, node=st, sig="early-exit-" + meth,
+                            required="returned unchanged only if it has no free symbol at all, or none of the symbols being substituted (pairs given as one list, or one symbol and its value)")
+    ctx.floor("R14.4", 8)
+
+
 def check_diagram_level(ctx):
     m = ctx.model
     ctx.analysed(MON + ".Diagram.subs", MON + ".Diagram.lambdify", CAT + ".Arrow.subs", CAT + ".Arrow.lambdify", CAT + ".Sum.subs", "discopy.tensor.Tensor.subs")
@@ -287,6 +314,8 @@ def check_closures(ctx):
 def check(ctx):
     ctx.rule("R14.1", "reconstruction completeness of every reachable subs/lambdify rebuild (abstract construction + abstract execution per class)")
     ctx.rule("R14.2", "free_symbols provenance: computed from the same data the arrays read; union over boxes; numpy/sympy module choice")
+    ctx.rule("R14.4", "a box is handed back unchanged by subs / lambdify only when no substituted symbol occurs in it")
+    check_early_exits(ctx)
     ctx.rule("R14.3", "diagram-level subs/lambdify rebuild layer by layer with the same whiskers; sums term-wise; tensors entry-wise")
     nc = check_closures(ctx)
     ctx.need(nc >= 6, "fewer than 6 lambdify methods scanned (%d)" % nc)
